@@ -425,7 +425,7 @@ class Unit:
                 else:
                     lo_, hi_ = fp['body_open'], fp['body_close']
                 if anchor == '@body_start':
-                    splices.append((lo_ + 1, ins))
+                    splices.append((lo_ if lifted is not None else lo_ + 1, ins))
                     continue
                 if anchor == '@body_end':
                     # just before the closing brace of the function body (only meaningful
